@@ -1273,8 +1273,11 @@ class Intersection(Operation):
            global_state: pg.geno.AttributeDict,
            step: int = 0) -> List[Any]:
     id_count = {}
+    # NOTE: outputs are kept alive, for ids of freed objects could be reused.
+    outputs = []
     for op in self._ops[1:]:
       for dna in op(inputs, global_state=global_state, step=step):
+        outputs.append(dna)
         dna_id = id(dna)
         if dna_id not in id_count:
           id_count[dna_id] = 0
@@ -1323,8 +1326,11 @@ class Difference(Operation):
            global_state: pg.geno.AttributeDict,
            step: int = 0) -> List[Any]:
     excluded_ids = set()
+    # NOTE: outputs are kept alive, for ids of freed objects could be reused.
+    excluded = []
     for op in self._ops[1:]:
       for dna in op(inputs, global_state=global_state, step=step):
+        excluded.append(dna)
         excluded_ids.add(id(dna))
     results = []
     for dna in self._ops[0](inputs, global_state=global_state, step=step):
